@@ -67,6 +67,7 @@ fn main() {
         "C10" => rig::props::c10::main(tier, replay),
         "C18" => rig::props::c18::main(tier, replay),
         "C13" => rig::props::c13::main(tier, replay),
+        "C14" => rig::props::c14::main(tier, replay),
         "selftest" => rig::props::c03::selftest(),
         _ => {
             eprintln!("unknown property {}", prop);
